@@ -486,5 +486,5 @@ func scC20E2E(r *Run) {
 }
 
 func init() {
-	Properties["C20"].Profiles = append(Properties["C20"].Profiles, ProfileDef{Name: "e2e", Share: 1, Sc: scC20E2E})
+	Properties["C20"].Profiles = append(Properties["C20"].Profiles, ProfileDef{Name: "e2e", Share: 4, Sc: scC20E2E})
 }
